@@ -14,6 +14,7 @@ Two instances: `exact` (an alphabet covering every branch of the affine rule, al
 (every symbol of the tree's table + generated compounds; predicates only)."""
 
 import json
+import os
 
 import concurrent.futures as cf
 
@@ -23,17 +24,17 @@ from common import NCPU, MachineryFailure
 CHUNK = 4000
 
 
-def _cfg(ck, name, stride, phase, allcombos, withbase, cfgall):
+def _cfg(ck, name, stride, phase, allcombos, withbase, cfgall, cross=False):
     txt = (
         "CONSTANTS\n"
-        f"  Stride = {stride}\n  Phase = {phase}\n  AllCombos = {'TRUE' if allcombos else 'FALSE'}\n  WithBase = {'TRUE' if withbase else 'FALSE'}\n  CfgAll = {'TRUE' if cfgall else 'FALSE'}\n"
+        f"  Stride = {stride}\n  Phase = {phase}\n  AllCombos = {'TRUE' if allcombos else 'FALSE'}\n  WithBase = {'TRUE' if withbase else 'FALSE'}\n  CfgAll = {'TRUE' if cfgall else 'FALSE'}\n  Cross = {'TRUE' if cross else 'FALSE'}\n"
         "INIT Init\nNEXT Next\nINVARIANT ExportCase\nCHECK_DEADLOCK FALSE\n"
     )
     open(f"{ck.spec}/{name}.cfg", "w").write(txt)
 
 
 def _short(o):
-    return f"{o['kind']} A={o['names']['A']} B={o['names']['B']} C={o['names']['C']} sys={o['sys']} cfg={o['cfg']} {o['dt']} {o['sh']}"
+    return f"{o['kind']} A={o['names']['A']} B={o['names']['B']} C={o['names']['C']} sys={o['sys']} cfg={o['cfg']} {o['dt']} {o['sh']}" + (f" bind={o['bind']} warm={'>'.join(o['warm']) or '-'}" if o.get("bind") else "")
 
 
 def _validate(ck, obs, datapath, label):
@@ -60,11 +61,11 @@ def _validate(ck, obs, datapath, label):
         for r in sorted(res.by_tag("P-FAIL"), key=lambda r: (r["i"], r["j"], r["clause"])):
             o = part[r["i"] - 1]
             x = o["res"][r["j"] - 1]
-            key = {"clause": r["clause"], "fam": r["fam"], "rt": r["rt"], "dt": o["dt"], "sh": o["sh"], "cls": r["cls"], "exc": r["exc"], "registry": "user" if label.startswith("user") else "default", "sys": o["sys"], "cfg": o["cfg"]}
+            key = {"clause": r["clause"], "fam": r["fam"], "rt": r["rt"], "dt": o["dt"], "sh": o["sh"], "cls": r["cls"], "exc": r["exc"], "registry": label.split("-")[0] if label.split("-")[0] in ("user", "cross") else "default", "sys": o["sys"], "cfg": o["cfg"], "bind": o.get("bind", "")}
             fam = [y for y in o["res"] if y["fam"] in (r["fam"], {"abc": "ac", "aba": "id", "bback": "id", "src": "id"}.get(r["fam"], r["fam"]))]
             detail = {"case": _short(o), "xs": o["xs"], "observed": {f"{y['fam']}.{y['rt']}": [y["k"], y["exc"], y["u"], y["show"]] for y in fam}, "failing": f"{x['fam']}.{x['rt']}"}
             case = {k: o[k] for k in ("kind", "a", "b", "c", "k", "dt", "sh", "xs", "exact", "sys", "sysi", "cfg", "cfgi")}
-            case.update({k: o["_case"][k] for k in ("dfam", "dbfam", "dg")})
+            case.update({k: o["_case"][k] for k in ("dfam", "dbfam", "dg", "warm", "bind")})
             case.update(mode=label.split("-")[0], A=o["_case"]["A"], B=o["_case"]["B"], C=o["_case"]["C"], gen=o["_case"]["gen"], cand=o["_case"]["cand"])
             acts.append(("violation", key, detail, case))
         return acts
@@ -87,10 +88,10 @@ def _apply(ck, acts):
 def _instance(ck, extract, mode, stride, phase, allcombos, withbase):
     data, info = c03_data.build(extract, mode)
     datapath = ck.write_json(f"c03_data_{mode}.json", data)
-    _cfg(ck, f"MC_C03_{mode}", stride, phase, allcombos, withbase, ck.q(False, True))
+    _cfg(ck, f"MC_C03_{mode}", stride, phase, allcombos, withbase, ck.q(False, True), cross=(mode == "cross"))
     res = ck.tlc("MC_C03", f"MC_C03_{mode}", env={"C03_DATA": datapath}, workers=1, coverage=False, label=f"case table {mode} stride={stride} allcombos={allcombos}", timeout=3000)
     cases = res.by_tag("CASE")
-    if len(cases) < 50:
+    if len(cases) < 50 or (mode == "cross" and not all(any(c["bind"] == b and len(c["warm"]) == n for c in cases) for b in ("twin", "stale") for n in (0, 1, 2))):
         raise MachineryFailure(f"too few cases exported ({len(cases)}) for {mode}")
     if res.distinct != len(cases) + 1:
         raise MachineryFailure("case export incomplete")
@@ -115,6 +116,7 @@ def run(ck):
         "dtype alphabet float64, float32, complex128, int64, int32 (1- and 2-byte integers belong to C17/C18); shapes scalar and 1-d",
         "the by-hand route (get_conversion_factor) is not demanded across dimensions (no EM route: explicit refusal)",
         "unit systems mks, cgs, imperial (+ galactic, solar in the table and user instances); which unit a system picks is C10's",
+        "cross instance: unit objects B/C bound to a second table (a second registry, or the quantity's own registry before it was re-calibrated) with the same spellings at other values; EM counterparts carry the same calibration in both tables; histories of at most two earlier requests on registries made afresh per case",
         "user instance: one caller-made registry (4 added code_* symbols, 8 re-calibrated symbols incl. base units of imperial/galactic/solar); a resulting unit bound to another registry than the quantity's counts as a different unit",
     ]
     if ck.replay:
@@ -132,7 +134,12 @@ def run(ck):
         ("exact", ck.q(8, 1), False, True),
         ("user", ck.q(8, 1), False, True),
         ("table", ck.q(31, 1), False, True),
+        ("cross", ck.q(9, 1), False, False),
     )
+
+    only = os.environ.get("VERIF_C03_ONLY")  # development aid: run one instance (e.g. cross) alone
+    if only:
+        plan = tuple(p for p in plan if p[0] in only.split(","))
 
     def job(p):
         mode, stride, allc, withbase = p
